@@ -51,6 +51,7 @@ var (
 type reader struct {
 	r            flate.Reader
 	decompressor io.ReadCloser
+	dictInflater bool // decompressor was made by flate.NewReaderDict (compress/flate's inflater)
 	digest       hash.Hash32
 	err          error
 	scratch      [4]byte
@@ -132,7 +133,7 @@ func (z *reader) Close() error {
 }
 
 func (z *reader) Reset(r io.Reader, dict []byte) error {
-	*z = reader{decompressor: z.decompressor}
+	*z = reader{decompressor: z.decompressor, dictInflater: z.dictInflater}
 	if fr, ok := r.(*bufio.Reader); ok {
 		z.r = fr
 	} else {
@@ -168,13 +169,15 @@ func (z *reader) Reset(r io.Reader, dict []byte) error {
 		}
 	}
 
-	if z.decompressor == nil || haveDict {
-		// Only the inflater made by NewReaderDict honours a dictionary.
+	if z.decompressor == nil || haveDict || z.dictInflater {
+		// Only the inflater made by NewReaderDict honours a dictionary; a stream without
+		// one is decoded by the same inflater as in a new Reader.
 		if haveDict {
 			z.decompressor = flate.NewReaderDict(z.r, dict)
 		} else {
 			z.decompressor = flate.NewReader(z.r)
 		}
+		z.dictInflater = haveDict
 	} else {
 		z.decompressor.(flate.Resetter).Reset(z.r, nil)
 	}
